@@ -78,7 +78,11 @@ SPEC = dict(
              "(every template action is a known helper, template defaults = loader defaults, memory units read back as "
              "printed) are decided over tables regenerated from templates/configV2.tmpl, configMeta.yaml and the sampler "
              "structs on every run. Tied to the code by converting generated v1 files with the real converter binary and "
-             "loading the result with the real v2 loader, comparing every read-back field with the model and with the v1 input.",
+             "loading the result with the real v2 loader, comparing every read-back field with the model and with the v1 input. "
+             "Five proposed repairs (yamlf quoting, list items through yamlf, removeDeprecated only for v2 input, renderMap on a "
+             "decoded table, nil condition Value omitted) are modelled behind per-defect flags (Model.Convert.Fixes, oracle "
+             "fixesDefault / VERIF_C38_FIXED); the full statements are proved for the repaired variants "
+             "(full_statement_fixed, file_statement_fixed, rules_statement_fixed).",
         note="Partial: the template engine and YAML rendering are not modelled; 'passes v2 validation' is established by running "
              "the real validator on generated cases (a test, not a theorem). Known divergences are listed as findings.",
         technique="Lean 4 proof (case analysis over helpers and value types; decide over regenerated tables) + differential "
